@@ -249,21 +249,21 @@ def check(ctx):
         inline_depth=2)
     stores = {loc[2]: val for loc, val, _, _ in ri.stores if loc[0] == "a"
               and loc[1] == n("self")}
-    keyfields = {f: v for f, v in stores.items() if v[0] == "s"}
+    from .common import alternatives
+    keyfields = {f: v for f, v in stores.items() if v[0] in ("s", "proj")}
     roots = {v[1] for v in keyfields.values()}
-    idx = sorted(v[2][1] for v in keyfields.values() if v[2][0] == "c")
+    idx = sorted((v[2][1] if v[0] == "s" else v[2]) for v in keyfields.values()
+                 if v[0] == "proj" or v[2][0] == "c")
     ok_struct = len(roots) == 1 and idx == [0, 1, 2]
     root = next(iter(roots)) if roots else None
     ok_eq = False
-    if root is not None and root[0] == "phi":
-        a, b = root[2], root[3]
-        while b[0] == "phi":  # elif chain: phi(int?, A, phi(array?, B, undef))
-            a2, b2 = b[2], b[3]
-            b = a2 if a2[0] != "undef" else b2
+    if root is not None:
+        # (where the int / key distinction is written -- around the split, inside its
+        # argument, in a helper -- does not matter: the two alternatives do)
         sp_int = ("call", ("g", "jax.random.split"),
                   (("call", ("g", "jax.random.PRNGKey"), (n("seed"),), ()), c(3)), ())
         sp_key = ("call", ("g", "jax.random.split"), (n("seed"), c(3)), ())
-        ok_eq = {a, b} == {sp_int, sp_key}
+        ok_eq = set(alternatives(root)) == {sp_int, sp_key}
     ctx.ob("C10.R3", init, "the three builder keys are pieces 0, 1, 2 of one 3-way split",
            ok_struct, detail=f"fields {sorted(keyfields)} indices {idx}")
     ctx.ob("C10.R3", init, "int seed: split(PRNGKey(seed), 3); key seed: split(seed, 3) "
